@@ -135,7 +135,7 @@ func clip(s string) string {
 	return s
 }
 
-var kinds = []string{"none", "none", "task", "pipeline", "dep", "watcher", "dupname", "cycle1", "cycle2", "cycle3", "selfdep", "dep-other-pipeline"}
+var kinds = []string{"none", "none", "task", "pipeline", "dep", "watcher", "dupname", "cycle1", "cycle2", "cycle3", "selfdep", "dep-other-pipeline", "dep-task-name", "dep-pipeline-name"}
 
 func genCase(rt *rapid.T) Case {
 	c := Case{Format: rapid.SampledFrom([]string{"yaml", "yaml", "json", "toml"}).Draw(rt, "format")}
@@ -145,10 +145,15 @@ func genCase(rt *rapid.T) Case {
 	}
 	np := rapid.IntRange(1, 4).Draw(rt, "npipes")
 	c.Pipes = make([][]Stage, np)
+	// stage names are unique within a pipeline only: local names repeat the same names in every pipeline
+	local := rapid.Bool().Draw(rt, "stage-names-repeat-across-pipelines")
 	for i := 0; i < np; i++ {
 		ns := rapid.IntRange(1, 4).Draw(rt, "nstages")
 		for j := 0; j < ns; j++ {
 			st := Stage{Name: fmt.Sprintf("s%d_%d", i, j)}
+			if local {
+				st.Name = fmt.Sprintf("st%d", j)
+			}
 			// acyclic inclusion: pipeline i may include pipeline i+1, once
 			if j == 0 && i+1 < np && rapid.Bool().Draw(rt, "include") {
 				st.Pipe = fmt.Sprint("p", i+1)
@@ -188,14 +193,32 @@ func genCase(rt *rapid.T) Case {
 	case "dep":
 		st.Deps = append(st.Deps, "no-such-stage")
 	case "dep-other-pipeline":
-		// a stage name that exists, but in another pipeline
+		// a stage name that exists, but only in another pipeline
 		other := (pi + 1) % np
-		if other == pi {
-			c.Kind = "dep"
-			st.Deps = append(st.Deps, "no-such-stage")
-		} else {
-			st.Deps = append(st.Deps, c.Pipes[other][0].Name)
+		cand := ""
+		if other != pi {
+			for _, o := range c.Pipes[other] {
+				inOwn := false
+				for _, m := range c.Pipes[pi] {
+					if m.Name == o.Name {
+						inOwn = true
+					}
+				}
+				if !inOwn {
+					cand = o.Name
+				}
+			}
 		}
+		if cand == "" {
+			c.Kind = "dep"
+			cand = "no-such-stage"
+		}
+		st.Deps = append(st.Deps, cand)
+	case "dep-task-name":
+		// the name of a task (that some stage runs under another stage name) is not a stage name
+		st.Deps = append(st.Deps, c.Tasks[0])
+	case "dep-pipeline-name":
+		st.Deps = append(st.Deps, fmt.Sprint("p", pi))
 	case "selfdep":
 		st.Deps = append(st.Deps, st.Name)
 	case "watcher":
@@ -207,7 +230,7 @@ func genCase(rt *rapid.T) Case {
 		}
 		c.Pipes[pi][len(c.Pipes[pi])-1].Name = c.Pipes[pi][0].Name
 	case "cycle1":
-		c.Pipes[pi] = append(c.Pipes[pi], Stage{Name: fmt.Sprintf("cyc%d", pi), Pipe: fmt.Sprint("p", pi)})
+		c.Pipes[pi] = append(c.Pipes[pi], Stage{Name: "next", Pipe: fmt.Sprint("p", pi)})
 		c.Pos = "inclusion-cycle"
 	case "cycle2", "cycle3":
 		l := 2
@@ -228,7 +251,8 @@ func genCase(rt *rapid.T) Case {
 				}
 			}
 			if !already {
-				c.Pipes[i] = append(c.Pipes[i], Stage{Name: fmt.Sprintf("ring%d", i), Pipe: target})
+				// the including stages carry the same explicit name in every pipeline of the ring
+				c.Pipes[i] = append(c.Pipes[i], Stage{Name: "next", Pipe: target})
 			}
 		}
 	}
